@@ -196,7 +196,9 @@ func (f *Formatter) formatCommentWith(comments ast.Comments, sep string, level i
 		default:
 			buf.WriteString(comments[i].String())
 		}
-		if breakLine && !strings.HasPrefix(comments[i].String(), "/*") {
+		// A line comment followed by another comment must end its line even if the caller
+		// takes care of the line feed behind the last one, otherwise the next comment becomes its text
+		if !strings.HasPrefix(comments[i].String(), "/*") && (breakLine || i < len(comments)-1) {
 			buf.WriteString("\n")
 			continue
 		}
